@@ -8,6 +8,7 @@ import (
 	"fmt"
 	"os"
 	"path/filepath"
+	"runtime/debug"
 	"sort"
 	"strings"
 	"time"
@@ -46,11 +47,11 @@ type Obligation struct {
 type Rule struct {
 	ID       string // "C18.1"
 	Title    string
-	Mod      string // module the rule analyses
-	Floor    int    // minimum number of non-canary instances (discharged+violated+undecided)
+	Mod      string         // module the rule analyses
+	Floor    int            // minimum number of non-canary instances (discharged+violated+undecided)
 	FloorBy  map[string]int // per-property floor (signal-scoped rules); overrides Floor
-	Thorough bool   // runs only in the thorough tier
-	Canary   string // canary source ("" = anchor-specific rule, the real code is its instance)
+	Thorough bool           // runs only in the thorough tier
+	Canary   string         // canary source ("" = anchor-specific rule, the real code is its instance)
 	Run      func(c *Ctx, p *Prog)
 }
 
@@ -249,6 +250,9 @@ func (c *Ctx) Run() int {
 		func() {
 			defer func() {
 				if e := recover(); e != nil {
+					if os.Getenv("OTELCHECK_DEBUG") != "" {
+						fmt.Fprintf(os.Stderr, "panic in %s: %v\n%s\n", r.ID, e, debug.Stack())
+					}
 					c.Undecided("internal", "?", "", fmt.Sprintf("checker panic in rule %s: %v", r.ID, e))
 				}
 			}()
@@ -557,7 +561,6 @@ func Describe(property, explanation string, assumptions ...string) {
 	propertyExplanations[property] = explanation
 	propertyAssumptions[property] = assumptions
 }
-
 
 // audit reports, for the files the property names as anchors, how many of the
 // repository functions declared there host at least one obligation of this run
